@@ -77,6 +77,14 @@ def generate(ctx):
         ds.append(('o', [(s, ('a', [('s', s)]))]))
     ds += [('d', x) for x in gen.FLOAT_POOL] + [('a', [('d', x), ('i', -5)]) for x in gen.FLOAT_POOL[::3]]
     ds += [('i', x) for x in gen.INT_POOL[::2]] + [('u', x) for x in gen.UINT_POOL[::2]]
+    # nesting well beyond what a screen shows (indentation grows with depth), far below the stack limit
+    for depth in (40, 130, 200):
+        for leaf in (('u', 7), ('o', [])):
+            v = w = leaf
+            for i in range(depth):
+                v = ('a', [v])
+                w = ('o', [(b'k', w)]) if i % 2 else ('a', [('n',), w])
+            ds += [v, w]
     ctx.ds = ds
     ctx.trials = []
     for v in ds:
